@@ -138,13 +138,23 @@ func vh19Observe(t *testing.T, out *vhfsOut, fs int, root p9.File, path []string
 	d.Close()
 	for _, n := range names {
 		o.Names = append(o.Names, vhfsName(n))
+	}
+	// a listing that failed (e.g. the connection broke on an oversized reply) is an observation, not a harness failure
+	for _, n := range names {
+		if o.Err != "" {
+			break
+		}
 		qs, f, err := base.Walk([]string{n})
 		if err != nil || len(qs) != 1 {
-			t.Fatalf("walk %q: %v %v", n, qs, err)
+			o.Err = fmt.Sprintf("walk %q: %v %v", n, qs, err)
+			o.WalkQ, o.GetQ = nil, nil
+			break
 		}
 		g, _, _, err := f.GetAttr(p9.AttrMask{Mode: true})
 		if err != nil {
-			t.Fatalf("getattr %q: %v", n, err)
+			o.Err = fmt.Sprintf("getattr %q: %v", n, err)
+			o.WalkQ, o.GetQ = nil, nil
+			break
 		}
 		f.Close()
 		o.WalkQ = append(o.WalkQ, vh19Q(qs[0]))
